@@ -73,7 +73,7 @@ func listRegular(root string) map[string]int64 {
 func TestVerifC18(t *testing.T) {
 	const check = "C18.model"
 	res := verifrt.NewResult(check)
-	res.Rule = "random sequences (5-200 ops) of write / overwrite with longer, shorter and empty content / read / read-absent / list(prefix) / Copy / listing and reading everything else while one object is half-written, over a pool of slash-separated names (1-5 levels, plus siblings that differ by .tmp ~ .part .lock .swp suffixes or a leading dot; components with dots, dashes, '=', spaces, unicode, date-like; no name a directory-prefix of another); prefixes: empty, every component boundary, mid-component, whole names, non-matching. Oracle: in-memory map; after every op every regular file under the scratch root lies at <dir>/<bucket>/<name> and nothing else exists. distinct = distinct sequences; non-trivial = sequence overwrote at least one object and listed with a non-empty prefix"
+	res.Rule = "random sequences (5-200 ops) of write / overwrite with longer, shorter and empty content / read / read-absent / list(prefix) / Copy / listing and reading everything else while one object is half-written / two writers open at once (each closed twice, as the services do) / two listings with overlapping lifetimes, over a pool of slash-separated names (1-5 levels, plus siblings that differ by .tmp ~ .part .lock .swp suffixes or a leading dot; components with dots, dashes, '=', spaces, unicode, date-like; no name a directory-prefix of another); prefixes: empty, every component boundary, mid-component, whole names, non-matching. Oracle: in-memory map; after every op every regular file under the scratch root lies at <dir>/<bucket>/<name> and nothing else exists. distinct = distinct sequences; non-trivial = sequence overwrote at least one object and listed with a non-empty prefix"
 	base := vtmp("c18-")
 	defer os.RemoveAll(base)
 	ctx := context.Background()
@@ -115,7 +115,94 @@ func TestVerifC18(t *testing.T) {
 		for op := 0; op < nops && !bad; op++ {
 			rp := verifrt.CaseReplay(i, map[string]any{"op": op, "ops": sig.String()})
 			name := names[rnd.Intn(len(names))]
-			switch k := rnd.Intn(11); {
+			switch k := rnd.Intn(13); {
+			case k == 12: // two listings with overlapping lifetimes
+				pa, pb := "", name[:rnd.Intn(len(name)+1)]
+				if rnd.Bool() {
+					pa, pb = pb, pa
+				}
+				wantOf := func(prefix string) string {
+					var w []string
+					for n := range model {
+						if strings.HasPrefix(n, prefix) {
+							w = append(w, n)
+						}
+					}
+					sort.Strings(w)
+					return strings.Join(w, "\x00")
+				}
+				drain := func(it ObjectIterator, first []string) string {
+					got := append([]string(nil), first...)
+					for k := 0; k < 100000; k++ {
+						o, err := it.Next()
+						if err != nil {
+							break
+						}
+						got = append(got, o)
+					}
+					sort.Strings(got)
+					return strings.Join(got, "\x00")
+				}
+				itA := bh.Objects(ctx, pa)
+				var firstA []string
+				if o, err := itA.Next(); err == nil {
+					firstA = append(firstA, o)
+				}
+				itB := bh.Objects(ctx, pb)
+				gotB := drain(itB, nil)
+				gotA := drain(itA, firstA)
+				if gotA != wantOf(pa) || gotB != wantOf(pb) {
+					res.Violate("list-mismatch:overlapping-listings", fmt.Sprintf("two listings in progress at once: Objects(%q) gave %q (stored: %q), Objects(%q) gave %q (stored: %q)", pa, gotA, wantOf(pa), pb, gotB, wantOf(pb)), rp)
+					bad = true
+				}
+				res.Hit("overlapping-listings")
+				fmt.Fprintf(&sig, "L(%s|%s);", pa, pb)
+			case k == 11: // two writers open at the same time, closed the way the services do (twice)
+				other := names[rnd.Intn(len(names))]
+				if other == name {
+					break
+				}
+				ca, cb := rnd.Bytes(rnd.Intn(400)), rnd.Bytes(rnd.Intn(400))
+				wa, err1 := bh.Object(name).NewWriter(ctx)
+				wb, err2 := bh.Object(other).NewWriter(ctx)
+				if err1 != nil || err2 != nil {
+					res.Violate("write-failed", fmt.Sprintf("opening two writers: %v / %v", err1, err2), rp)
+					bad = true
+					break
+				}
+				wa.Write(ca[:len(ca)/2])
+				wb.Write(cb[:len(cb)/2])
+				wa.Write(ca[len(ca)/2:])
+				wb.Write(cb[len(cb)/2:])
+				e1 := wa.Close()
+				wa.Close() // (handlers defer a Close and also close explicitly)
+				e2 := wb.Close()
+				wb.Close()
+				if e1 != nil || e2 != nil {
+					res.Violate("write-failed", fmt.Sprintf("closing two writers: %v / %v", e1, e2), rp)
+					bad = true
+					break
+				}
+				if _, ok := model[name]; ok {
+					overwrote = true
+				}
+				model[name], model[other] = ca, cb
+				for _, n := range []string{name, other} {
+					rd, err := bh.Object(n).NewReader(ctx)
+					if err != nil {
+						res.Violate("read-failed", fmt.Sprintf("reading %q after two interleaved writers: %v", n, err), rp)
+						bad = true
+						break
+					}
+					got, _ := io.ReadAll(rd)
+					rd.Close()
+					if string(got) != string(model[n]) {
+						res.Violate("roundtrip:two-writers", fmt.Sprintf("two writers open at once: object %q reads %d bytes, written %d (contents differ)", n, len(got), len(model[n])), rp)
+						bad = true
+					}
+				}
+				res.Hit("two-writers-at-once")
+				fmt.Fprintf(&sig, "WW(%s,%s);", name, other)
 			case k == 10: // a write in progress while the bucket is listed and read
 				content := rnd.Bytes(rnd.Intn(2000))
 				w, err := bh.Object(name).NewWriter(ctx)
@@ -197,6 +284,9 @@ func TestVerifC18(t *testing.T) {
 					_, err = w.Write(content)
 					if cerr := w.Close(); err == nil {
 						err = cerr
+					}
+					if rnd.Bool() {
+						w.Close() // closed twice, as by a deferred and an explicit Close
 					}
 				}
 				if err != nil {
@@ -335,7 +425,7 @@ func TestVerifC18(t *testing.T) {
 		}
 		os.RemoveAll(root)
 	}
-	res.Require("list-during-write", "overwrite-shorter", "read-absent", "list", "list-deeply-nested")
+	res.Require("two-writers-at-once", "overlapping-listings", "list-during-write", "overwrite-shorter", "read-absent", "list", "list-deeply-nested")
 	if err := res.Write(); err != nil {
 		t.Fatal(err)
 	}
